@@ -119,6 +119,7 @@ Fixpoint execE (env : fenv) (fuel : nat) (st : stmt) (s : state) : outcome :=
         end
       | _, _ => OFault
       end
+    | SFault _ => OFault
     end
   end.
 
